@@ -4,8 +4,9 @@
     Strings are lists of byte codes ([N], 0..255); IDs are [N] below 2^64.
       Encode: zero is invalid; otherwise big-endian 8 bytes -> hex.Encode = the
               16 lower-case hex digits of the value.
-      Decode: len(b) = 16, then strconv.ParseUint(b, 16, 64) (digit switch with
-              [lower(c) = c | 0x20], so 'A'..'F' are accepted), then non-zero.
+      Decode: len(b) = 16, no byte in 'A'..'F' (the repair of finding
+              id-decode-uppercase-hex), then strconv.ParseUint(b, 16, 64) (digit switch with
+              [lower(c) = c | 0x20]), then non-zero.
 
     Part 2: mirror of [Generator.Next] of /repo/pkg/snowflake/gen.go as a
     small-step machine: every atomic action of a caller (clock read + atomic
@@ -56,13 +57,20 @@ Fixpoint parse_hex (acc : N) (s : list N) : option N :=
       end
   end.
 
-(** [ID.Decode]: [None] = any error (ErrInvalidIDLength / ErrInvalidID). *)
-Definition decode (s : list N) : option N :=
+(** The part of [ID.Decode] after the upper-case guard: length, ParseUint, non-zero. *)
+Definition decode_pu (s : list N) : option N :=
   if negb (Nat.eqb (length s) 16) then None
   else match parse_hex 0 s with
        | None => None
        | Some v => if v =? 0 then None else Some v
        end.
+
+Definition is_upper_hex (c : N) : bool := (65 <=? c) && (c <=? 70).
+
+(** [ID.Decode]: [None] = any error (ErrInvalidIDLength / ErrInvalidID).  The length
+    check comes first in the Go code; both failures are just "rejected" here. *)
+Definition decode (s : list N) : option N :=
+  if existsb is_upper_hex s then None else decode_pu s.
 
 (** ** The property's own reading (independent oracle): a string is an ID iff it is
     16 characters from "0123456789abcdef" with a non-zero value. *)
